@@ -2,6 +2,9 @@ import Propka.Props.C11
 import Propka.Model.Energy
 import Mathlib.Tactic.Ring
 import Mathlib.Tactic.Linarith
+import Mathlib.Tactic.LinearCombination
+import Propka.Proofs.Scoring
+import Propka.Proofs.Rotation
 /-! # C04 — predictions do not depend on where the structure sits in space
 
 All geometry enters the heavy-atom part of the model through squared distances.  On the exact
@@ -152,3 +155,79 @@ namespace Propka.Energy
 theorem desolvation_reads_sqdist {α : Type} [Div α] [Mul α] [Max α] (p : EP α) (dvol s1 s2 : α) (h : s1 = s2) :
     dvInc p dvol s1 = dvInc p dvol s2 := by rw [h]
 end Propka.Energy
+
+/-! ## the whole scoring phase (`Model/Scoring.lean`) under rigid motions
+
+`score` - the model of `calculate_pka` with everything it calls - reads coordinates only through the environment
+`envOf`: squared distances between atoms and group centres, and the angle factors.  A map of space that preserves the
+inner products of difference vectors leaves that environment, hence every number scoring produces (desolvation terms,
+buried counts, every determinant, every pKa, the coupling penalties), unchanged - with the hydrogens where they are, i.e.
+the statement for supplied hydrogens, or for constructed hydrogens before rounding.  Every rotation or reflection followed
+by a translation is such a map (`rigid_isometric`), not only the 24 grid rotations. -/
+namespace Propka.Scoring
+open Propka.Angle
+
+/-- inner product of the difference vectors a-b and c-d -/
+def dot4 (a b c d : P3 ℝ) : ℝ := (a.x - b.x) * (c.x - d.x) + (a.y - b.y) * (c.y - d.y) + (a.z - b.z) * (c.z - d.z)
+
+/-- a map of space that preserves the inner products of difference vectors - what every rigid motion does -/
+def Isometric (T : P3 ℝ → P3 ℝ) : Prop := ∀ a b c d, dot4 (T a) (T b) (T c) (T d) = dot4 a b c d
+
+theorem sqDist_eq_dot4 (a b : P3 ℝ) : sqDist a b = dot4 b a b a := by unfold sqDist dot4; ring
+
+theorem sqDist_isometric (T : P3 ℝ → P3 ℝ) (hT : Isometric T) (a b : P3 ℝ) : sqDist (T a) (T b) = sqDist a b := by
+  rw [sqDist_eq_dot4, sqDist_eq_dot4, hT]
+
+theorem factors_eq_dot4 (p1 p2 p3 : P3 ℝ) :
+    factors p1 p2 p3 = (Real.sqrt (dot4 p1 p2 p1 p2), dot4 p1 p2 p2 p3 / (Real.sqrt (dot4 p1 p2 p1 p2) * Real.sqrt (dot4 p2 p3 p2 p3)),
+      Real.sqrt (dot4 p2 p3 p2 p3)) := by
+  unfold factors dot4
+  simp only [Trig.sqrt]
+  refine Prod.ext rfl (Prod.ext ?_ rfl)
+  simp only
+  rw [div_mul_div_comm, div_mul_div_comm, div_mul_div_comm, ← add_div, ← add_div]
+
+theorem factors_isometric (T : P3 ℝ → P3 ℝ) (hT : Isometric T) (p1 p2 p3 : P3 ℝ) :
+    factors (T p1) (T p2) (T p3) = factors p1 p2 p3 := by
+  rw [factors_eq_dot4, factors_eq_dot4, hT, hT, hT]
+
+/-- **Everything scoring reads of the geometry is unchanged by a rigid motion of all atoms and group centres.** -/
+theorem envOf_motion_invariant (T : P3 ℝ → P3 ℝ) (hT : Isometric T) (apos gpos : Nat → P3 ℝ) (ares gres : Nat → ResKey) (gid : Nat → GroupId) :
+    envOf (fun i => T (apos i)) (fun g => T (gpos g)) ares gres gid = envOf apos gpos ares gres gid := by
+  unfold envOf
+  simp only [sqDist_isometric T hT, factors_isometric T hT]
+
+theorem score_motion_invariant (T : P3 ℝ → P3 ℝ) (hT : Isometric T) (p : SP ℝ) (apos gpos : Nat → P3 ℝ) (ares gres : Nat → ResKey)
+    (gid : Nat → GroupId) (atoms : Tab AtomT) (groups : Tab (GroupT ℝ)) :
+    score p (envOf (fun i => T (apos i)) (fun g => T (gpos g)) ares gres gid) atoms groups = score p (envOf apos gpos ares gres gid) atoms groups := by
+  rw [envOf_motion_invariant T hT]
+
+/-- `v ↦ M v + t` for a 3x3 matrix given by its rows -/
+def affine (r1 r2 r3 t : P3 ℝ) (v : P3 ℝ) : P3 ℝ :=
+  ⟨r1.x * v.x + r1.y * v.y + r1.z * v.z + t.x, r2.x * v.x + r2.y * v.y + r2.z * v.z + t.y, r3.x * v.x + r3.y * v.y + r3.z * v.z + t.z⟩
+
+/-- the columns of the matrix are orthonormal (`MᵀM = 1`) -/
+structure Orthogonal (r1 r2 r3 : P3 ℝ) : Prop where
+  c11 : r1.x * r1.x + r2.x * r2.x + r3.x * r3.x = 1
+  c22 : r1.y * r1.y + r2.y * r2.y + r3.y * r3.y = 1
+  c33 : r1.z * r1.z + r2.z * r2.z + r3.z * r3.z = 1
+  c12 : r1.x * r1.y + r2.x * r2.y + r3.x * r3.y = 0
+  c13 : r1.x * r1.z + r2.x * r2.z + r3.x * r3.z = 0
+  c23 : r1.y * r1.z + r2.y * r2.z + r3.y * r3.z = 0
+
+/-- **Every rotation (or reflection) followed by a translation is isometric.** -/
+theorem rigid_isometric (r1 r2 r3 t : P3 ℝ) (h : Orthogonal r1 r2 r3) : Isometric (affine r1 r2 r3 t) := by
+  intro a b c d
+  unfold dot4 affine
+  simp only
+  obtain ⟨h11, h22, h33, h12, h13, h23⟩ := h
+  linear_combination ((a.x - b.x) * (c.x - d.x)) * h11 + ((a.y - b.y) * (c.y - d.y)) * h22 + ((a.z - b.z) * (c.z - d.z)) * h33
+    + ((a.x - b.x) * (c.y - d.y) + (a.y - b.y) * (c.x - d.x)) * h12 + ((a.x - b.x) * (c.z - d.z) + (a.z - b.z) * (c.x - d.x)) * h13
+    + ((a.y - b.y) * (c.z - d.z) + (a.z - b.z) * (c.y - d.y)) * h23
+
+/-- not vacuous: the quarter turn about z followed by any translation -/
+example (t : P3 ℝ) : Isometric (affine ⟨0, -1, 0⟩ ⟨1, 0, 0⟩ ⟨0, 0, 1⟩ t) :=
+  rigid_isometric _ _ _ _ (by constructor <;> norm_num)
+
+end Propka.Scoring
+
